@@ -490,7 +490,7 @@ pub fn run_one(cfg : &Config, seed : u64, k : u64, stats : &mut Stats) -> Vec<Fo
             }
         }
     }
-    stats.inc("runs");
+    stats.end_run();
 
     // minimise and package (one per signature)
     let mut seen = BTreeSet::new();
